@@ -243,7 +243,10 @@ theorem appendBatch_ok (fsHas : Nat → Bool) (es : List (LogId × Bytes)) (s : 
     have hsmall : (Record.append id p).small := hes (id, p) List.mem_cons_self
     have h1 := appendAndApply_not_panic fsHas hp hsmall
     have h2 := appendAndApply_panicFree fsHas hp hsmall (by intro x hx; cases hx)
-    unfold Store.appendBatch
+    have hne : id.index + 1 ≠ U64 := by
+      have : id.index + 1 < U64 := hsmall
+      omega
+    rw [appendBatch_cons_small_D12 _ _ _ _ _ _ _ hne]
     split
     · rename_i seg' s' e' heq
       rw [heq] at h2
@@ -292,7 +295,10 @@ theorem call_ok {s : Store} (fsHas : Nat → Bool) (op : Op) (hp : PanicFree s) 
           exact ⟨appendAndApply_not_panic fsHas hp hsm,
             appendAndApply_panicFree fsHas hp hsm (by intro x hx; cases hx)⟩
   | purge upto =>
-    simp only [Store.call]
+    have hne : upto.index + 1 ≠ U64 := by
+      have : upto.index + 1 < U64 := hop
+      omega
+    rw [call_purge_small_D12 _ _ _ hne]
     obtain ⟨n, hn⟩ := nextIndexChecked_some hp.purged
     rw [hn]
     simp only
